@@ -260,10 +260,10 @@ CLAIMED["C16"] = dict(
 
 CLAIMED["C18"] = dict(
     category="translation_validation",
-    technique="the correspondence half of the technique applied to four build forms: multi-file -O0 (reference), multi-file -O3 -DNDEBUG, generated single header -O0 and -O2, all built from the working tree, run on the seed-generated call scripts of C03-C09, C11, C16, C19, C20 and compared with each other and with the Lean models",
+    technique="the correspondence half of the technique applied to five build forms: multi-file -O0 (reference), multi-file -O3 -DNDEBUG, generated single header -O0 and -O2 (implementation in a translation unit of its own) and generated single header -O3 -DNDEBUG with GPC_IMPLEMENTATION in the caller's translation unit, all built from the working tree, run on the seed-generated call scripts of C03-C09, C11, C16, C19, C20 (plus C12/C13 calls compared across the forms only) and compared with each other and with the Lean models",
     text="NO THEOREM OF ITS OWN (a compiler's optimiser and the header generator are not modelled; a proof cannot apply to them). What "
          "is decided: the single header is generated from the current sources and compiles as one translation unit; every public-API "
-         "harness builds against it; on every script of the corpus the transcripts of the four build forms are byte-identical, and "
+         "harness builds against it; on every script of the corpus the transcripts of the five build forms are byte-identical, and "
          "the reference form equals what the verified Lean models (the subjects of the theorems of C03-C09, C11, C16, C19, C20) predict.",
     note="Category translation_validation: equality of behaviours across build forms on a corpus, not for every program. Harnesses that "
          "need library internals (memory.c statics, the tracking heap) are outside the corpus; gcc 12 only.",
